@@ -165,6 +165,29 @@ def check_C12(tier, seed):
     return _conc("C12", "C12", tier, seed, {"C12"}).finish()
 
 
+def _lock_protocol(tier):
+    """LockProtocol.tla: TLC (safety, no stranding, everyone finishes) and Apalache (IndInv is
+    inductive: base from Init, step from any state satisfying IndInv)."""
+    import subprocess, shutil, os
+    from . import tlc
+    out = {}
+    for n in ((4, 5) if tier == "quick" else (4, 5, 6)):
+        r = tlc.run_tlc("MCLock", cfg_file="LockProtocol_%d.cfg" % n, workers=4)
+        out["tlc_%d_threads" % n] = {"ok": r.ok, "distinct": r.distinct, "generated": r.generated}
+    work = os.path.join(tlc.scratch_root(), "apa.%d" % os.getpid())
+    res = {}
+    for name, args in (("base", ["--init=Init", "--length=0"]), ("step", ["--init=IndInit", "--length=1"])):
+        try:
+            p = subprocess.run(["apalache-mc", "check", "--inv=IndInv", "--out-dir=" + work] + args +
+                               ["MC_LockApa.tla"], cwd=tlc.SPEC, capture_output=True, text=True, timeout=600)
+            res[name] = "NoError" if "The outcome is: NoError" in p.stdout else "FAILED: " + p.stdout[-300:]
+        except Exception as e:  # noqa  (Apalache is an extra, never a reason to fail the check)
+            res[name] = "not run: %s" % type(e).__name__
+    shutil.rmtree(work, ignore_errors=True)
+    out["apalache_inductive_invariant"] = res
+    return out
+
+
 def check_C08(tier, seed):
     """Termination and lock hygiene over every execution explored for C07 and C12
     (the fault-injection part rides on the C13 enumeration, see check_C13)."""
@@ -184,7 +207,9 @@ def check_C08(tier, seed):
                                                 "distinct_nontrivial", "per_scenario", "samples")
                        if k in conc_cov})
     v.coverage["fault_injections_checked_for_lock_residue"] = nf
-    v.coverage["checker_cmd"] = "harness.conc explorer ; tlc TraceLin (I_NoDeadlock, I_NothingLocked) ; harness.crashfault ; tlc TraceFault (I_C08_FaultUnlocks)"
+    v.coverage["lock_protocol_model"] = _lock_protocol(tier)
+    v.coverage["checker_cmd"] = ("harness.conc explorer ; tlc TraceLin (I_NoDeadlock, I_NothingLocked) ; harness.crashfault ; "
+                                 "tlc TraceFault (I_C08_FaultUnlocks) ; tlc MCLock (LockProtocol) ; apalache-mc MC_LockApa (IndInv)")
     v.assumptions.append("deadlock = no runnable managed thread while some call unfinished; "
                          "after every distinct terminal outcome follow-up calls on every identifier "
                          "involved must complete without blocking")
